@@ -232,6 +232,9 @@ def kwargs_call(p, ch):
             if (m2 // (2 ** (i % 4))) % 2 == 1:
                 val = build(bp, ch2); t[key] = val; model[key] = val
         args.append(lmap.map(t))
+    elif args and isinstance(args[-1], lmap.PersistentMap):
+        # a final *value* that is itself a map would be taken for the documented trailing-map argument: say explicitly that there is none
+        args.append(lmap.map({}))
     return args, (lmap.map(model) if args else None)
 def refvec(v):
     env = {}
